@@ -380,6 +380,14 @@ pub fn adjust(cfg: &mut SwarmCfg, tier: &str, r: &mut Prng) {
             setw(cfg, "crash", 1);
             setw(cfg, "reload", 10);
             cfg.knobs.push(("detached".into(), 3));
+            if r.chance(1, 5) {
+                // a commit (or proposal) build that fails because the crypto provider returns an error leaves no
+                // pending commit and nothing else behind
+                cfg.scenario = "crypto-faults".into();
+                cfg.oracles.push("crypto-faults".into());
+                cfg.faults.push("C-ERR".into());
+                cfg.knobs.push(("sample-faults".into(), *r.pick(&[40u64, 150, 400])));
+            }
         }
         "C15" => {
             cfg.oracles = sv(&["agreement", "storage-faults", "state-unchanged"]);
